@@ -124,7 +124,9 @@ def check(spec, ctx):
     def aff(x, y, t=tb, f=fb):
         return ctx.call(spec, f"compute_affinity({x.type},{y.type},{t},{f})", compute_affinity, x, y, time_buffer=t, freq_buffer=f)
 
-    ctx.evaluations += 0
+    from vf.core import snapshot
+
+    geoms_before = snapshot((g1, g2))
     try:
         a12 = aff(g1, g2)
     except Exception:
@@ -208,6 +210,7 @@ def check(spec, ctx):
     gap2 = max(f1[0], f2[0]) - min(f1[1], f2[1])
     if gap2 > 1e-9 * max(1.0, f1[1], f2[1]) and c12 != 0:
         ctx.fail(f"(second buffers) disjoint in time (gap {gap2}) but affinity is {c12}", spec, c12, 0, kind="disjoint")
+    ctx.unchanged(spec, "compute_affinity: the geometries", geoms_before, (g1, g2))
     again = aff(g1, g2)
     if again != a12:
         ctx.fail(f"same call gives {a12} then {again} after a call with other buffers", spec, again, a12, kind="not_deterministic")
